@@ -1,5 +1,5 @@
 """C05 — shipped rewrite rules preserve semantics wherever they fire."""
-MODULES = ["contracts.c05_rules", "contracts.c05_batchnorm", "contracts.c05_basic", "contracts.c05_casts", "contracts.c09_reshape", "contracts.c06_matcher:match_constant", "contracts.c05_conv", "contracts.c05_gemm"]
+MODULES = ["contracts.c05_rules", "contracts.c05_batchnorm", "contracts.c05_basic", "contracts.c05_casts", "contracts.c09_reshape", "contracts.c06_matcher:match_constant", "contracts.c05_conv", "contracts.c05_gemm", "contracts.c05_matmul_reshape"]
 HEAD = "import sys\nsys.path.insert(0, '/verif')\nfrom replay_lib.opt_native import main\n"
 EVIDENCE_EXTRA = {"rules_not_under_contract": "all rules except _fuse_relus_clips (4), _min_max_to_clip (4), _no_op (pattern constants), _remove_expand_before_binary_op, _basic_rules.TransposeTranspose, _fuse_batchnorm (Conv, Gemm); rules.fusion and _fuse_hardswish replace subgraphs by compound operators whose only definition is a function body or an ORT kernel"}
 
@@ -19,6 +19,8 @@ def replay(ob):
         return HEAD + "main(['scatter_permuted'])\n"
     if "NormalizePadFormatConv" in n:
         return HEAD + "main(['conv_auto_pad_dilations'])\n"
+    if "reshape_matmul_reshape" in n:
+        return HEAD + "main(['reshape_matmul_reshape'])\n"
     if "MatMulAddToGemm" in n:
         return HEAD + "main(['matmul_add_gemm_bias'])\n"
     if "rules.CastCast" in n:
